@@ -10,6 +10,7 @@
 from amoco.arch.eBPF import env
 
 from amoco.arch.core import *
+from copy import copy as _copy  # operands get their own sign flag: shared register objects are copied
 
 # -------------------------------------------------------
 # instruction eBPF decoders
@@ -37,7 +38,7 @@ ISPECS = []
 @ispec("64>[ 001 s 1011 dreg(4) sreg(4) off(16) ~imm(32) ]", mnemonic="end")
 def ebpf_alu_(obj, s, dreg, sreg, off, imm):
     dst = env.E[dreg]
-    src = env.cst(imm.int(-1), 32) if s == 0 else env.E[sreg]
+    src = env.cst(imm.int(-1), 32) if s == 0 else _copy(env.E[sreg])
     src.sf = True
     if obj.mnemonic in ("or", "and", "xor", "neg", "end"):
         src.sf = False
@@ -62,7 +63,7 @@ def ebpf_alu_(obj, s, dreg, sreg, off, imm):
 @ispec("64>[ 111 s 1011 dreg(4) sreg(4) off(16) ~imm(32) ]", mnemonic="end")
 def ebpf_alu_(obj, s, dreg, sreg, off, imm):
     dst = env.R[dreg]
-    src = env.cst(imm.int(-1), 32).zeroextend(64) if s == 0 else env.R[sreg]
+    src = env.cst(imm.int(-1), 32).zeroextend(64) if s == 0 else _copy(env.R[sreg])
     src.sf = True
     if obj.mnemonic in ("or", "and", "xor", "neg", "end"):
         src.sf = False
@@ -80,7 +81,7 @@ def ebpf_alu_(obj, s, dreg, sreg, off, imm):
 @ispec("64>[ 101 s 1110 dreg(4) sreg(4) ~off(16) ~imm(32) ]", mnemonic="jsge")
 def ebpf_jmp_(obj, s, dreg, sreg, off, imm):
     dst = env.R[dreg]
-    src = env.cst(imm.int(-1), 64) if s == 0 else env.R[sreg]
+    src = env.cst(imm.int(-1), 64) if s == 0 else _copy(env.R[sreg])
     offset = env.cst(off.int(-1), 64)
     obj.operands = [dst, src, offset]
     obj.type = type_control_flow
